@@ -77,6 +77,14 @@ def gen_cases(tier):
                 "cfgs": [cfg.describe()],
                 "history": [["get", 0, "sys"], ["refresh", 0], ["reply", 0, "ok", 3], ["get_many", 0, "pair"], ["getbulk", 0, "sys", 5]],
             }
+    # large requests after large replies went through the pooled buffers (whatever a buffer held must not leak into the MAC field)
+    for auth, priv in ((1, 0), (2, 0), (2, 2), (1, 1)):
+        cfg = Cfg("v3", auth=auth, priv=priv)
+        other = Cfg("v2c")
+        h = []
+        for n in (3500, 3900, 2000):
+            h += [["get", 0, "sys"], ["reply", 0, "octets", n], ["get_many", 0, "forty"], ["get", 1, "sys"], ["reply", 1, "octets", n], ["get_many", 0, "forty"], ["getbulk", 0, "sys", 9]]
+        yield {"class": "after-large-replies", "cfgs": [cfg.describe(), other.describe()], "history": h}
     # a refused key installation must leave the keys the session had
     for auth, priv in ((1, 0), (2, 0), (1, 1), (2, 2), (2, 1)):
         for disc in (False, True):
